@@ -498,12 +498,20 @@ class C02(Prop):
                     "times are exact dyadic numbers; CPython generator semantics (send/throw/StopIteration) are modelled, not verified"]
     assumptions = ["process bodies do not call env.run()/step() re-entrantly",
                    "executions are considered up to the first exception that escapes from the MIDDLE of a callback loop (invalid yield, "
-                   "interrupt of a process whose target is being processed, StopSimulation before further waiters): the kernel has "
-                   "then dropped the remaining callbacks; the loss of waiters behind the stop callback of run(until=event) is reported "
-                   "as a finding, not assumed away",
+                   "interrupt of a process whose target is being processed): the kernel has then dropped the remaining callbacks "
+                   "(DESIGN.md 4 (ii)); the stop of run(until=event) is no such escape since fix bd0bcc6 (found by this monitor as "
+                   "waiter-lost-at-until-stop, repaired together with C03)",
                    "succeed()/fail() called by hand on a live Process event (the kernel re-triggers it when the generator ends) and "
                    "Event.trigger are misuse outside the property"]
-    partial = []
+    partial = ["for Process events and conditions the theorems deliver the outcome the event carries at the moment its callback is "
+               "invoked (C02_resume_gets_outcome) and show that a generator's return value / exception becomes its Process event's "
+               "outcome (C02_process_event_outcome); that this outcome is unchanged until the Process event is processed is proved "
+               "only for the other kinds of events (C02_value_stable: timeouts, plain events, ...) -- for a Process event it is "
+               "false when succeed()/fail() is called by hand on a live process; the monitor checks it on every run "
+               "(outcome-changed-before/during-processing); condition values are C05's subject",
+               "RBroken is shown unreachable for the answers the C02 theorems meet (popped event missing or without outcome, waiter "
+               "without process record, process without Process event); the internal RBroken answers of conditions and "
+               "interruptions belong to C05/C04"]
 
     def gen_case(self, rng, tier):
         if rng.random() < 0.45:
